@@ -355,6 +355,7 @@ fn(VA, 'sparse_bincount', trait='NaturalArray', self_ty='VecArray', status='B', 
    ensures=[('C07.sparse_bincount-len', 'r.0@.len() == r.1@.len()'),
             ('C07.sparse_bincount-distinct', 'injective(r.0@)'),
             ('C07.sparse_bincount-counts', 'forall|k: int| 0 <= k < r.0@.len() ==> r.1@[k] == count(self@, r.0@[k] as int, self@.len() as int) && r.1@[k] > 0'),
+            ('C07.sparse_bincount-occurs', 'forall|k: int| 0 <= k < r.0@.len() ==> count(self@, (#[trigger] r.0@[k]) as int, self@.len() as int) > 0'),
             ('C07.sparse_bincount-complete', 'forall|i: int| 0 <= i < self@.len() ==> #[trigger] hit(r.0@, self@[i] as int, r.0@.len() as int)'),
             ('C07.sparse_bincount-sorted!vec', 'forall|a: int, b: int| 0 <= a < b < r.0@.len() ==> r.0@[a] < r.0@[b]')],
    mirror='chk_sparse_bincount', note='HashMap entry API + sort_unstable are outside Verus; bounded check of the real body')
